@@ -270,6 +270,76 @@ class Recorder:
                 raise
             break
 
+    # -- coverage-guided: atheris drives Hypothesis's byte stream --------
+    def run_atheris(self, strategy, runs, seed, finish, corpus_dir):
+        """libFuzzer mutates the byte string from which Hypothesis builds
+        the case (``fuzz_one_input``), guided by coverage of the Python code
+        of zope.interface.  Failures are collected by signature (the fuzzer
+        is not stopped), the first case of each signature is the replay; no
+        shrinking.  ``finish`` writes the summary and ends the process
+        (atheris.Fuzz() does not return)."""
+        import random
+
+        import atheris
+        from hypothesis import HealthCheck, given, settings
+        rec = self
+
+        @settings(database=None, deadline=None,
+                  suppress_health_check=list(HealthCheck))
+        @given(strategy)
+        def test(case):
+            out = rec.execute(case)
+            rec.account(case, out)
+            new = rec.new_fails(out)
+            if new:
+                path = rec.write_replay(case, new)
+                for sig, _ in new:
+                    rec.reported_sigs.add(sig)
+                rec.violations.append(
+                    {'sig': new[0][0], 'msg': new[0][1], 'replay': path,
+                     'regression': False})
+
+        fuzz = test.hypothesis.fuzz_one_input
+        # starting corpus: byte strings Hypothesis accepts, found by
+        # feeding it pseudo-random buffers (an empty corpus mostly yields
+        # buffers that are too short to build a case from)
+        os.makedirs(corpus_dir, exist_ok=True)
+        rng = random.Random(seed)
+        made = 0
+        for _ in range(400):
+            if made >= 40:
+                break
+            buf = bytes(rng.getrandbits(8) if rng.random() < 0.5 else 0
+                        for _ in range(rng.choice([256, 1024, 4096])))
+            try:
+                canon_ = fuzz(buf)
+            except Exception:  # noqa
+                canon_ = None
+            if canon_:
+                with open(os.path.join(corpus_dir, 'seed%03d' % made),
+                          'wb') as f:
+                    f.write(canon_)
+                made += 1
+        self.classes['atheris_corpus_seeds'] = made
+        start = self.evaluations
+
+        def one(data):
+            try:
+                fuzz(data)
+            except BaseException:  # noqa
+                rec.harness_errors.append(traceback.format_exc()[-3000:])
+                finish()
+            if rec.evaluations - start >= runs or rec.out_of_time or \
+                    len(rec.violations) >= 5:
+                finish()
+
+        atheris.Setup([sys.argv[0], '-runs=%d' % (runs * 50),
+                       '-seed=%d' % (seed % (2 ** 31) or 1),
+                       '-max_len=8192', '-verbosity=0', '-print_final_stats=0',
+                       corpus_dir], one)
+        atheris.Fuzz()
+        finish()
+
     def summary(self):
         return {
             'config': self.cfg,
